@@ -1069,6 +1069,19 @@ func (t *TS) call(s *State, call *ssa.Call) []*State {
 			}
 		}
 	}
+	if callee == nil && !cc.IsInvoke() {
+		// a call through a function value that can only be a transaction terminator taken as a method expression
+		// ("commit := (*fstxn.FsTxn).Commit; ...; commit(op)", a table of them): the weakest of the candidates
+		if tf := terminatorThunkCallee(t.c, call); tf != nil {
+			callee = tf
+		}
+	}
+	if callee != nil && callee.Synthetic != "" {
+		// the wrapper of a terminator taken as a method expression, known on this path
+		if tf := terminatorOf(V, callee); tf != nil {
+			callee = tf
+		}
+	}
 	if callee != nil && callee.Parent() != nil && fav.K != KFunc {
 		// a closure called directly: its captured variables come with the closure value
 		if a := t.eval(s, cc.Value); a.K == KFunc {
@@ -1479,4 +1492,61 @@ func liveIn(fn *ssa.Function) []map[ssa.Value]bool {
 	}
 	liveMemo[fn] = in
 	return in
+}
+
+// terminatorOf: fn is a transaction terminator, or the synthetic wrapper the
+// compiler makes for one taken as a method expression / method value.
+func terminatorOf(V *Vocab, fn *ssa.Function) *ssa.Function {
+	if fn == nil {
+		return nil
+	}
+	if V.Terminators[fn] != "" {
+		return fn
+	}
+	if fn.Synthetic == "" || fn.Blocks == nil {
+		return nil
+	}
+	var found *ssa.Function
+	n := 0
+	for _, b := range fn.Blocks {
+		for _, in := range b.Instrs {
+			if ci, ok := in.(ssa.CallInstruction); ok {
+				n++
+				if cal := ci.Common().StaticCallee(); cal != nil && V.Terminators[cal] != "" {
+					found = cal
+				}
+			}
+		}
+	}
+	if n == 1 {
+		return found
+	}
+	return nil
+}
+
+// terminatorThunkCallee: every function the call graph gives for this dynamic
+// call is (a wrapper of) a terminator of one kind; the one to assume is the
+// weakest (the asynchronous commit if it is among them).
+func terminatorThunkCallee(c *Ctx, call ssa.Instruction) *ssa.Function {
+	V := c.V
+	cands := c.P.Callees(call)
+	if len(cands) == 0 {
+		return nil
+	}
+	var pick *ssa.Function
+	kind := ""
+	for _, f := range cands {
+		tf := terminatorOf(V, f)
+		if tf == nil {
+			return nil
+		}
+		if kind != "" && V.Terminators[tf] != kind {
+			return nil
+		}
+		kind = V.Terminators[tf]
+		if pick == nil || tf == V.CommitUnstable {
+			pick = tf
+		}
+	}
+	return pick
 }
